@@ -457,7 +457,8 @@ enum MKind {
     M_CONSTRUCT, M_COPY_CTOR, M_MOVE_CTOR, M_DTOR, M_ASSIGN, M_ASSIGN_SELF, M_MOVE_ASSIGN, M_SET_CSTR, M_ASSIGN_CSTR, M_SET_BUFFER,
     M_APPEND, M_APPEND_SELF, M_APPEND_CSTR, M_APPEND_CHAR, M_REPLACE_SELF, M_SUBSTR_SELF, M_TRIM_SELF, M_UPPER_SELF, M_CLEAR, M_SET_STRING, M_SET_MOVE,
     // the argument is a raw pointer / view into the target's own storage: it must be consumed as a value
-    M_ASSIGN_OWN_CSTR, M_SET_OWN_TAIL, M_ASSIGN_OWN_HEAD_VIEW, M_SET_OWN_TAIL_VIEW, M_APPEND_OWN_CSTR, M_SET_OWN_PTRLEN
+    M_ASSIGN_OWN_CSTR, M_SET_OWN_TAIL, M_ASSIGN_OWN_HEAD_VIEW, M_SET_OWN_TAIL_VIEW, M_APPEND_OWN_CSTR, M_SET_OWN_PTRLEN,
+    M_SET_OWN_PTRLEN_SUBST, M_SET_OWN_TAIL_ASSUME, M_SET_OWN_VIEW_SUBST
 };
 struct MOp {
     MKind k;
@@ -512,6 +513,9 @@ struct StrSys : World {
             ops.push_back(MOp{M_SET_OWN_TAIL_VIEW, i, i, 0});
             ops.push_back(MOp{M_APPEND_OWN_CSTR, i, i, 0});
             ops.push_back(MOp{M_SET_OWN_PTRLEN, i, i, 0});
+            ops.push_back(MOp{M_SET_OWN_PTRLEN_SUBST, i, i, 0});
+            ops.push_back(MOp{M_SET_OWN_TAIL_ASSUME, i, i, 0});
+            ops.push_back(MOp{M_SET_OWN_VIEW_SUBST, i, i, 0});
         }
         vf::tracking_begin();
     }
@@ -582,6 +586,9 @@ struct StrSys : World {
         case M_SET_OWN_TAIL_VIEW: return strf("s%d.set(s%d.view(size/2))", o.i, o.i);
         case M_APPEND_OWN_CSTR: return strf("s%d += s%d.c_str()", o.i, o.i);
         case M_SET_OWN_PTRLEN: return strf("s%d.set(s%d.c_str(), size/2)", o.i, o.i);
+        case M_SET_OWN_PTRLEN_SUBST: return strf("s%d.set(s%d.c_str(), size/2, substitute_invalid)", o.i, o.i);
+        case M_SET_OWN_TAIL_ASSUME: return strf("s%d.set(s%d.c_str() + size/2, size - size/2, assume_valid)", o.i, o.i);
+        case M_SET_OWN_VIEW_SUBST: return strf("s%d.set(s%d.view(size/2), substitute_invalid)", o.i, o.i);
         }
         return "?";
     }
@@ -827,6 +834,27 @@ struct StrSys : World {
                 m += std::string(m.c_str());
                 tag = "append(own c_str)";
                 break;
+            case M_SET_OWN_PTRLEN_SUBST: {
+                size_t k = own_cut(m, m.size() / 2);
+                LIB(a->set(a->c_str(), k, ST::substitute_invalid));
+                m = m.substr(0, k);
+                tag = "set(own c_str, n, substitute_invalid)";
+                break;
+            }
+            case M_SET_OWN_TAIL_ASSUME: {
+                size_t k = own_cut(m, m.size() / 2);
+                LIB(a->set(a->c_str() + k, m.size() - k, ST::assume_valid));
+                m = m.substr(k);
+                tag = "set(own c_str + k, n, assume_valid)";
+                break;
+            }
+            case M_SET_OWN_VIEW_SUBST: {
+                size_t k = own_cut(m, m.size() / 2);
+                LIB(a->set(a->view(k), ST::substitute_invalid));
+                m = m.substr(k);
+                tag = "set(own view, substitute_invalid)";
+                break;
+            }
             case M_SET_OWN_PTRLEN: {
                 size_t k = own_cut(m, m.size() / 2);
                 LIB(a->set(a->c_str(), k));
@@ -888,6 +916,17 @@ struct StrSys : World {
     // derived systems may accept an exception thrown by a mutator (return true = handled, checks done)
     virtual bool on_mutator_exception(const MOp &, const vf::Outcome &, const Snap *, const char *, const std::string &, Fails &) { return false; }
     bool light = false;  // derived systems: skip the const-operation battery around mutators
+    // the object a member returns, bound to a reference: it must be a distinct object (a member that hands out a reference
+    // to the string's own buffer makes the "result" follow every later change of the source)
+    template <class R>
+    void result_identity(R &&r, const S &a, const char *what, Fails &f)
+    {
+        const char *pr = (const char *)&r, *pa = (const char *)&a;
+        if (pr >= pa && pr < pa + sizeof(S))
+            f.push_back(Fail{strf("c04:result-is-part-of-the-source:%s", what), strf("%s returned a reference into the string object itself", what)});
+        else if ((const void *)r.data() == (const void *)a.c_str())
+            f.push_back(Fail{strf("c04:result-aliases:%s", what), strf("the object returned by %s uses the source's storage", what)});
+    }
     virtual ~StrSys() {}
     virtual void on_new_state(Fails &f)
     {
@@ -912,6 +951,31 @@ struct StrSys : World {
                 }
         }
         release(held);
+        for (int s = 0; s < 2; ++s) {
+            if (!slots[s].alive) continue;
+            const S &a = *slots[s].obj();
+            vf::Outcome oc = vf::guard([&] {
+                LIB(result_identity(a.to_utf8(), a, "a.to_utf8()", f));
+                LIB(result_identity(a.to_utf16(), a, "a.to_utf16()", f));
+                LIB(result_identity(a.to_utf32(), a, "a.to_utf32()", f));
+                LIB(result_identity(a.to_wchar(), a, "a.to_wchar()", f));
+                LIB(result_identity(a.to_latin_1(), a, "a.to_latin_1()", f));
+                LIB(result_identity(a.to_std_string(), a, "a.to_std_string()", f));
+                LIB(result_identity(a.substr(0), a, "a.substr(0)", f));
+                LIB(result_identity(a.left(a.size()), a, "a.left(size)", f));
+                LIB(result_identity(a.right(a.size()), a, "a.right(size)", f));
+                LIB(result_identity(a.trim("#"), a, "a.trim(\"#\")", f));
+                LIB(result_identity(a.to_upper(), a, "a.to_upper()", f));
+                LIB(result_identity(a.to_lower(), a, "a.to_lower()", f));
+                LIB(result_identity(a.replace("zz", "q"), a, "a.replace(\"zz\",\"q\")", f));
+                LIB(result_identity(a.before_first('#'), a, "a.before_first('#')", f));
+                LIB(result_identity(a.after_last('#'), a, "a.after_last('#')", f));
+                LIB(result_identity(a + "", a, "a+\"\"", f));
+            });
+            n_reads += 16;
+            if (!oc.ok() && oc.kind != vf::EX_UNICODE) f.push_back(Fail{strf("c04:result-identity:%s", vf::outkind_name(oc.kind)), oc.str()});
+        }
+        if (!f.empty()) return;
         // (b) scalar reads
         static const S other_const = S::from_validated("ab", 2);
         for (int s = 0; s < 2; ++s) {
